@@ -593,6 +593,46 @@ def r7(ctx):
                     isinstance(n.right, ast.Name) and n.right.id in fi.own_params and fi.param_annotation(n.right.id) is not None
                     and unparse(fi.param_annotation(n.right.id)) == "int"):       # (a Python int divisor raises in both worlds)
                 unknown.append((None, f"division by a run-time value `{unparse(n, 50)}`"))
+        for n in Resolver.walk_own(fi.node):
+            # x ** y with a run-time exponent: a Python float power raises OverflowError where compiled code returns inf
+            if isinstance(n, ast.BinOp) and isinstance(n.op, ast.Pow) and not isinstance(n.right, ast.Constant):
+                unknown.append((None, f"power with a run-time exponent `{unparse(n, 40)}`"))
+        # a local that is not assigned on every path to a read: UnboundLocalError in the interpreter, a zero-initialised value in
+        # compiled code (definite-assignment analysis: a must-dataflow over the CFG)
+        cfg_ = ana.cfg(fi)
+        a_ = fi.node.args
+        params_ = {x.arg for x in a_.posonlyargs + a_.args + a_.kwonlyargs}
+        locals_ = {d for nd in cfg_.nodes for d in nd.defs} - params_
+        TOP = None
+        must_in = {nd.id: TOP for nd in cfg_.nodes}
+        must_out = {nd.id: TOP for nd in cfg_.nodes}
+        must_in[cfg_.entry.id] = set()
+        must_out[cfg_.entry.id] = set(params_)
+        changed_ = True
+        rounds_ = 0
+        while changed_ and rounds_ < 200:
+            changed_ = False
+            rounds_ += 1
+            for nd in cfg_.nodes:
+                if nd is cfg_.entry:
+                    continue
+                ins = [must_out[p] for p, k in cfg_.pred.get(nd.id, []) if k == "n" and must_out[p] is not TOP]
+                if not ins:
+                    continue
+                new_in = set.intersection(*ins)
+                new_out = new_in | set(nd.defs)
+                if must_in[nd.id] is TOP or new_in != must_in[nd.id] or must_out[nd.id] is TOP or new_out != must_out[nd.id]:
+                    must_in[nd.id], must_out[nd.id] = new_in, new_out
+                    changed_ = True
+        for nd in cfg_.nodes:
+            if nd.ast is None or must_in[nd.id] is TOP or nd.kind not in ("stmt", "test", "for_init"):
+                continue
+            expr = nd.ast.test if nd.kind == "test" and hasattr(nd.ast, "test") else (nd.ast.iter if nd.kind == "for_init" else nd.ast)
+            for x in ast.walk(expr):
+                if isinstance(x, ast.Name) and isinstance(x.ctx, ast.Load) and x.id in locals_ and x.id not in must_in[nd.id]:
+                    if isinstance(nd.ast, (ast.For, ast.While, ast.If, ast.With, ast.Try)) and nd.kind == "stmt":
+                        continue
+                    unknown.append((None, f"local `{x.id}` that is not assigned on every path to its use at line {x.lineno}"))
         if unknown:
             what = ", ".join(sorted({w for _c, w in unknown}))
             ctx.unrecognised(fi, f"the kernel uses {what}: agreement of Numba and NumPy for the argument kinds used here is not modelled",
